@@ -22,6 +22,7 @@
 import logging
 import numpy as np
 import numpy.random
+import random
 import sympy
 
 from .mixed_integrator import MixedIntegrator
@@ -123,7 +124,7 @@ class StiffnessTester:
         r"""
         This function computes the average step size and the minimal step size that a given integration method from GSL uses to evolve a certain system of ODEs during a certain simulation time, integration method from GSL and spike train for a given maximal stepsize.
 
-        This function will reset the numpy random seed.
+        This function will reset the numpy and Python random seeds.
 
         :param integrator: A method from the GSL library for evolving ODEs, e.g. :python:`odeiv.step_rk4`.
         :param h_min_lower_bound: The minimum acceptable step size. Integration will terminate with an error if this step size is reached.
@@ -136,6 +137,7 @@ class StiffnessTester:
         assert PYGSL_AVAILABLE
 
         np.random.seed(self.random_seed)
+        random.seed(self.random_seed)   # the Poisson spike generator draws from Python's ``random`` module
 
         spike_times = SpikeGenerator.spike_times_from_json(self._stimuli, self.sim_time)
 
